@@ -853,9 +853,18 @@ func (c *cursor[K, V]) Forward() iterator.Iterator[KVPair[K, V]] {
 
 type forwardIterator[K any, V any] struct {
 	c cursor[K, V]
+	// inRange, if non-nil, tells whether a key is still inside the range being iterated. The first key outside ends
+	// the iteration for good. It is asked before the entry's value is read: an entry outside the range is never read,
+	// so a bounded range does not race with a Put to a present key outside its bounds.
+	inRange func(K) bool
+	done    bool
 }
 
 func (iter *forwardIterator[K, V]) Next() (KVPair[K, V], bool) {
+	if iter.done {
+		var zero KVPair[K, V]
+		return zero, false
+	}
 	if iter.c.lost() {
 		iter.c.SeekFirstGreaterOrEqual(iter.c.Key())
 	}
@@ -864,6 +873,11 @@ func (iter *forwardIterator[K, V]) Next() (KVPair[K, V], bool) {
 		return zero, false
 	}
 	k := iter.c.Key()
+	if iter.inRange != nil && !iter.inRange(k) {
+		iter.done = true
+		var zero KVPair[K, V]
+		return zero, false
+	}
 	// Safe since we already made sure !iter.c.lost() by reseeking above.
 	v := iter.c.valueUnchecked()
 	iter.c.Next()
@@ -876,9 +890,16 @@ func (c *cursor[K, V]) Backward() iterator.Iterator[KVPair[K, V]] {
 
 type backwardIterator[K any, V any] struct {
 	c cursor[K, V]
+	// see forwardIterator
+	inRange func(K) bool
+	done    bool
 }
 
 func (iter *backwardIterator[K, V]) Next() (KVPair[K, V], bool) {
+	if iter.done {
+		var zero KVPair[K, V]
+		return zero, false
+	}
 	if iter.c.lost() {
 		iter.c.SeekLastLessOrEqual(iter.c.Key())
 	}
@@ -887,6 +908,11 @@ func (iter *backwardIterator[K, V]) Next() (KVPair[K, V], bool) {
 		return zero, false
 	}
 	k := iter.c.Key()
+	if iter.inRange != nil && !iter.inRange(k) {
+		iter.done = true
+		var zero KVPair[K, V]
+		return zero, false
+	}
 	// Safe since we already made sure !iter.c.lost() by reseeking above.
 	v := iter.c.valueUnchecked()
 	iter.c.Prev()
@@ -907,13 +933,9 @@ func (t *btree[K, V]) Range(lower Bound[K], upper Bound[K]) iterator.Iterator[KV
 	}
 	switch upper.type_ {
 	case boundInclude:
-		return iterator.While(c.Forward(), func(pair KVPair[K, V]) bool {
-			return t.compare(pair.Key, upper.key) <= 0
-		})
+		return &forwardIterator[K, V]{c: c, inRange: func(k K) bool { return t.compare(k, upper.key) <= 0 }}
 	case boundExclude:
-		return iterator.While(c.Forward(), func(pair KVPair[K, V]) bool {
-			return t.compare(pair.Key, upper.key) < 0
-		})
+		return &forwardIterator[K, V]{c: c, inRange: func(k K) bool { return t.compare(k, upper.key) < 0 }}
 	case boundUnbounded:
 		return c.Forward()
 	default:
@@ -935,13 +957,9 @@ func (t *btree[K, V]) RangeReverse(lower Bound[K], upper Bound[K]) iterator.Iter
 	}
 	switch lower.type_ {
 	case boundInclude:
-		return iterator.While(c.Backward(), func(pair KVPair[K, V]) bool {
-			return t.compare(pair.Key, lower.key) >= 0
-		})
+		return &backwardIterator[K, V]{c: c, inRange: func(k K) bool { return t.compare(k, lower.key) >= 0 }}
 	case boundExclude:
-		return iterator.While(c.Backward(), func(pair KVPair[K, V]) bool {
-			return t.compare(pair.Key, lower.key) > 0
-		})
+		return &backwardIterator[K, V]{c: c, inRange: func(k K) bool { return t.compare(k, lower.key) > 0 }}
 	case boundUnbounded:
 		return c.Backward()
 	default:
